@@ -28,10 +28,10 @@ theorem C02_translated_verify_server_proof (C : Crypto) (be : Backend) (c : SrpC
           | .error e => (.err (valMatchErr e), selfChallenge c, [])
           | .ok cl => (.ok (valClient cl), selfChallenge c, []))) := by
   by_cases hM : M2 = calculateServerProof C c.clientPublicKey c.clientProof c.sessionKey
-  · simp [Gen.CodeApi.verifyServerProof, ApiFn.run, runBody, Rhs.eval, Ret.eval, atomsVal, fieldsVal, Atom.val, lookup, bindVar, srpPrims,
+  · simp [Gen.CodeApi.verifyServerProof, ApiFn.run, runBody, Rhs.eval, drawKinds, Ret.eval, atomsVal, fieldsVal, Atom.val, lookup, bindVar, srpPrims,
       selfChallenge, valClient, valMatchErr, eqVal, SrpClientChallenge.verifyServerProof, hM, Out.bind, bind, outcome]
   · have hb : (M2 == calculateServerProof C c.clientPublicKey c.clientProof c.sessionKey) = false := by simp [hM]
-    simp [hb, Gen.CodeApi.verifyServerProof, ApiFn.run, runBody, Rhs.eval, Ret.eval, atomsVal, fieldsVal, Atom.val, lookup, bindVar, srpPrims,
+    simp [hb, Gen.CodeApi.verifyServerProof, ApiFn.run, runBody, Rhs.eval, drawKinds, Ret.eval, atomsVal, fieldsVal, Atom.val, lookup, bindVar, srpPrims,
       selfChallenge, valClient, valMatchErr, eqVal, SrpClientChallenge.verifyServerProof, hM, Out.bind, bind, outcome]
 
 
@@ -43,25 +43,32 @@ theorem C03_translated_client_new (C : Crypto) (be : Backend) (u p : NStr) (g : 
   simp only [SrpClientChallenge.new]
   cases hA : calculateClientPublicKey be a g nLE with
   | panic m =>
-    simp [Gen.CodeApi.clientNew, ApiFn.run, runBody, Rhs.eval, atomsVal, Atom.val, lookup, bindVar, srpPrims, outKey, hA, Out.bind, bind, outcome]
+    simp [Gen.CodeApi.clientNew, ApiFn.run, runBody, Rhs.eval, drawKinds, atomsVal, Atom.val, lookup, bindVar, srpPrims, outKey, hA, Out.bind, bind, outcome]
   | ok r =>
     cases r with
     | error e =>
-      simp [Gen.CodeApi.clientNew, ApiFn.run, runBody, Rhs.eval, atomsVal, Atom.val, lookup, bindVar, srpPrims, outKey, hA, Out.bind, bind, outcome]
+      simp [Gen.CodeApi.clientNew, ApiFn.run, runBody, Rhs.eval, drawKinds, atomsVal, Atom.val, lookup, bindVar, srpPrims, outKey, hA, Out.bind, bind, outcome]
     | ok A =>
       cases hS : calculateClientS be B (calculateX C u.asRef p.asRef salt) a (calculateU C A B) g nLE with
       | panic m =>
-        simp [Gen.CodeApi.clientNew, ApiFn.run, runBody, Rhs.eval, atomsVal, Atom.val, lookup, bindVar, srpPrims, outKey, outBytes, hA, hS,
+        simp [Gen.CodeApi.clientNew, ApiFn.run, runBody, Rhs.eval, drawKinds, atomsVal, Atom.val, lookup, bindVar, srpPrims, outKey, outBytes, hA, hS,
           Out.bind, bind, outcome]
       | ok S =>
         cases hK : calculateInterleaved C S with
         | panic m =>
-          simp [Gen.CodeApi.clientNew, ApiFn.run, runBody, Rhs.eval, atomsVal, Atom.val, lookup, bindVar, srpPrims, outKey, outBytes, hA, hS, hK,
+          simp [Gen.CodeApi.clientNew, ApiFn.run, runBody, Rhs.eval, drawKinds, atomsVal, Atom.val, lookup, bindVar, srpPrims, outKey, outBytes, hA, hS, hK,
             Out.bind, bind, outcome]
         | ok K =>
-          simp [Gen.CodeApi.clientNew, ApiFn.run, runBody, Rhs.eval, Ret.eval, atomsVal, fieldsVal, Atom.val, lookup, bindVar, srpPrims, outKey,
+          simp [Gen.CodeApi.clientNew, ApiFn.run, runBody, Rhs.eval, drawKinds, Ret.eval, atomsVal, fieldsVal, Atom.val, lookup, bindVar, srpPrims, outKey,
             outBytes, valChallenge, hA, hS, hK, Out.bind, bind, outcome]
+
+/-- the parameter lists and return types the terms above were read under (the terms carry parameter NAMES; the types decide what a
+    conversion such as `Generator::from(generator)`, `.into()` or `?` means) -/
+theorem C03_translated_client_signatures :
+    Gen.CodeApi.verifyServerProofSig = "self,server_proof:[u8;PROOF_LENGTH as usize],->Result<SrpClient,MatchProofsError>" ∧
+    Gen.CodeApi.clientNewSig = "username:NormalizedString,password:NormalizedString,generator:u8,large_safe_prime:[u8;LARGE_SAFE_PRIME_LENGTH as usize],server_public_key:PublicKey,salt:[u8;SALT_LENGTH as usize],->SrpClientChallenge" := by decide +kernel
 
 #print axioms C02_translated_verify_server_proof
 #print axioms C03_translated_client_new
+#print axioms C03_translated_client_signatures
 end WowSrp
